@@ -159,6 +159,13 @@ Proof. repeat split; cbv; tauto. Qed.
 Lemma default_rules_known : length default_ignore_rules = length default_ignore_rule_names.
 Proof. reflexivity. Qed.
 
+(** table facts: the element lists of the pixel and colour-table rules cover the documented elements (any order) *)
+Lemma pixel_elems_cover : forall e, In e [0x0008; 0x0009; 0x0010] -> existsb (N.eqb e) pixel_elems = true.
+Proof. intros e [<- | [<- | [<- | []]]]; reflexivity. Qed.
+
+Lemma lut_elems_cover : forall e, In e [0x1201; 0x1202; 0x1203; 0x1221; 0x1222; 0x1223] -> existsb (N.eqb e) lut_elems = true.
+Proof. intros e [<- | [<- | [<- | [<- | [<- | [<- | []]]]]]]; reflexivity. Qed.
+
 Theorem never_default cfg f ds st :
   c_rules cfg = default_ignore_rules ->
   run (S f) cfg ds = Ok st ->
@@ -175,18 +182,12 @@ Proof.
   clear Hrules H1. cbv zeta. destruct (std_tag x) as [g e]. simpl fst in *. simpl snd in *.
   unfold apply_rule in *. simpl fst in *. simpl snd in *.
   split; [|split; [|split]].
-  - intros [Hg He]. change pixel_group with 0x7fe0 in Ax. change pixel_elems with [0x0008; 0x0009; 0x0010] in Ax.
-    rewrite Hg in Ax. rewrite N.eqb_refl in Ax. simpl andb in Ax.
-    assert (existsb (N.eqb e) [0x0008; 0x0009; 0x0010] = true) as E.
-    { apply existsb_exists. exists e. split; [exact He | apply N.eqb_refl]. }
-    simpl in E. congruence.
+  - intros [Hg He]. change pixel_group with 0x7fe0 in Ax.
+    rewrite Hg, N.eqb_refl, (pixel_elems_cover e He) in Ax. discriminate Ax.
   - intros [Hg He]. change overlay_mask with 0xff00 in Ao. change overlay_group with 0x6000 in Ao. change overlay_elem with 0x3000 in Ao.
     rewrite Hg, He in Ao. vm_compute in Ao. discriminate Ao.
-  - intros [Hg He]. change lut_group with 0x0028 in Al. change lut_elems with [0x1201; 0x1202; 0x1203; 0x1221; 0x1222; 0x1223] in Al.
-    rewrite Hg in Al. rewrite N.eqb_refl in Al. simpl andb in Al.
-    assert (existsb (N.eqb e) [0x1201; 0x1202; 0x1203; 0x1221; 0x1222; 0x1223] = true) as E.
-    { apply existsb_exists. exists e. split; [exact He | apply N.eqb_refl]. }
-    simpl in E. congruence.
+  - intros [Hg He]. change lut_group with 0x0028 in Al.
+    rewrite Hg, N.eqb_refl, (lut_elems_cover e He) in Al. discriminate Al.
   - intros Hm. change private_mod with 2 in Ap. change private_rem with 1 in Ap. rewrite Hm in Ap. discriminate Ap.
 Qed.
 
